@@ -172,7 +172,7 @@ class FPCoreContext:
                     raise RuntimeError('Cannot convert unsigned FixedContext to an FPCore context')
                 rm = _round_mode_from_fpc(ctx.rm)
                 of = _overflow_mode_from_fpc(ctx.overflow)
-                return FPCoreContext(precision=['fixed', ctx.nbits, ctx.scale], round=rm, overflow=of)
+                return FPCoreContext(precision=['fixed', ctx.scale, ctx.nbits], round=rm, overflow=of)
             case _ if ctx is REAL:
                 return FPCoreContext(precision='real')
             case _:
@@ -203,8 +203,8 @@ class FPCoreContext:
                 case 'binary16':
                     return FP16.with_params(rm=_round_mode_to_fpy(rnd))
                 # fixed-point context
-                case ['fixed', nbits, scale]:
-                    return FixedContext(True, int(nbits), int(scale), _round_mode_to_fpy(rnd), _overflow_mode_to_fpc(ov))
+                case ['fixed', scale, nbits]:
+                    return FixedContext(True, int(scale), int(nbits), _round_mode_to_fpy(rnd), _overflow_mode_to_fpc(ov))
                 # integer context
                 case 'integer':
                     return INTEGER.with_params(rm=_round_mode_to_fpy(rnd))
